@@ -238,6 +238,28 @@ def record_type(st):
     return None
 
 
+def dataclass_type(st):
+    """("rectype", name, fields, defaults) for a module-level `@dataclass class X:` whose constructor is the generated one (no bases, no
+    __init__ / __post_init__ / __new__ of its own, init not switched off, constant defaults): X(a, b) / X(a, y=b) binds the fields
+    positionally like a NamedTuple.  None otherwise."""
+    if not isinstance(st, ast.ClassDef) or st.bases or st.keywords:
+        return None
+    decs = [ast.unparse(d) for d in st.decorator_list]
+    if len(decs) != 1 or decs[0].split("(")[0] not in ("dataclass", "dataclasses.dataclass") or "init=False" in decs[0].replace(" ", ""):
+        return None
+    fields, defaults = [], []
+    for b in st.body:
+        if isinstance(b, (ast.FunctionDef, ast.AsyncFunctionDef)) and b.name in ("__init__", "__post_init__", "__new__", "__getattribute__", "__getattr__"):
+            return None
+        if isinstance(b, ast.AnnAssign) and isinstance(b.target, ast.Name) and "ClassVar" not in ast.unparse(b.annotation):
+            fields.append(b.target.id)
+            if b.value is not None:
+                if not isinstance(b.value, ast.Constant):
+                    return None
+                defaults.append((b.target.id, ("const", b.value.value)))
+    return ("rectype", st.name, tuple(fields), tuple(defaults)) if fields else None
+
+
 def _ev_literal(node, consts=None):
     """IR of a literal-like expression outside any function"""
     dummy = ast.parse("def _():\n    pass").body[0]
@@ -313,6 +335,17 @@ class RateModel:
                         out[rt[1]] = rt
             self._mconsts[file] = out
         return self._mconsts[file]
+
+    def dataclass_types(self, file: str) -> dict:
+        """{name: rectype} of the module-level dataclasses of `file` (see dataclass_type) -- for a rule that wants `X(a, b).m()` read through;
+        not part of module_consts, whose users match constructor calls of the package's dataclasses as calls"""
+        mod = self.pkg.modules.get(file)
+        out = {}
+        for st in (mod.body if mod is not None else ()):
+            rt = dataclass_type(st)
+            if rt is not None:
+                out[rt[1]] = rt
+        return out
 
     def class_displays(self, cls: str) -> dict:
         """{name: (display AST node, file)} of the class-level tables (tuple / list / set / dict displays of constants, enum members and
